@@ -20,7 +20,7 @@ LEVEL_TEXT = ("TLC runs the character-level scanner of Quote.tla over ALL input 
               "split / word-utility call is repeated after an adversarial prelude on the same buffer (different content, errno preset) and must "
               "return the fresh result. "
               "Every case is executed at each run-time debug level of the specification's DebugLevels (0, 1, 3, 5) with identical results required; "
-              "long COUNTS (n-1, n, n+1 tokens / words around 2^8 and 2^16) are specified by the repeat laws of Quote.tla and executed on repeated blocks; "
+              "the tok object's life cycle (setters of its special characters, done(), reuse without init) is part of TokObj.tla with the characters read back after every step; every byte value as the only delimiter; long COUNTS (n-1, n, n+1 tokens / words around 2^8 and 2^16) are specified by the repeat laws of Quote.tla and executed on repeated blocks; "
               "huge word indices (2^31 .. ULONG_MAX) must find no word.")
 LEVEL_NOTE = ("Exhaustive only up to the length bound and over that 7-character alphabet / those 3 delimiter sets; beyond it a few dozen "
               "long random strings. Delimiter sets containing a quote or backslash, and the empty delimiter string, are outside the "
@@ -135,27 +135,45 @@ def exhaustive(ctx, exe):
     return res
 
 
-HIST_ACTIONS = ["OpEvalFresh", "OpEvalAgain", "OpEvalAgainNewSep"]
+HIST_ACTIONS = ["OpEvalFresh", "OpEvalAgain", "OpEvalAgainNewSep", "OpLifeEvalFresh", "OpLifeEvalKeepSep", "OpLifeEvalNewSep",
+                "OpSetQuote", "OpSetDQuote", "OpSetEscape", "OpDone"]
+STOCK = [SQ, DQ, BS]
+STEP_OP = {"eval": "tok_eval", "setq": "tok_setq", "setdq": "tok_setdq", "setesc": "tok_setesc", "done": "tok_done"}
 
 
 def hist_key(c, at, f):
-    """history step: what the object held before, what the new source yields, whether the separator changed"""
+    """history step: what the object went through before, what the new source yields, whether the separator changed"""
     h = c.meta["h"]
-    now = "blank-source" if not h[at]["toks"] else "tokens"
-    prev = "fresh" if at == 0 else ("after-blank-source" if not h[at - 1]["toks"] else "after-tokens")
-    sep = "" if at == 0 or h[at]["d"] == h[at - 1]["d"] else ",sep-changed"
-    k = "tok_eval(history) d=%s [%s,%s%s] %s" % (dclass(h[at]["d"]), prev, now, sep, x_c12.fail_class(f))
+    e = h[at]
+    before = [x["op"] for x in h[:at]]
+    life = []
+    if "done" in before:
+        life.append("after-done")
+    if any(x["ch"] != STOCK for x in h[:at]):
+        life.append("custom-chars-before")
+    if e["ch"] != STOCK:
+        life.append("custom-chars-now")
+    if e["op"] != "eval":
+        return "tok_%s(history) [%s] %s" % (e["op"], ",".join(life) or "stock", x_c12.fail_class(f))
+    evs = [x for x in h[:at] if x["op"] == "eval"]
+    now = "blank-source" if not e["toks"] else "tokens"
+    prev = "fresh" if not evs else ("after-blank-source" if not evs[-1]["toks"] else "after-tokens")
+    sep = "" if not evs or e["d"] == evs[-1]["d"] else ",sep-changed"
+    k = "tok_eval(history) d=%s [%s,%s%s%s] %s" % (dclass(e["d"]), prev, now, sep, "".join("," + x for x in life), x_c12.fail_class(f))
     if f.kind == "ret":
         k += "/" + diff_class(f.exp, f.got)
     return k
 
 
 def histories(ctx, exe):
-    """The tok OBJECT with a history (spec/TokObj.tla): every pair of evaluations (and the short triples) on ONE object
-    through set_src / set_sep; after each evaluation the list must be the scanner's result for the current source alone."""
+    """The tok OBJECT with a history and a life cycle (spec/TokObj.tla): every pair of evaluations (and the short triples) on ONE
+    object through set_src / set_sep, and [setters] eval [done] [setters] eval with custom special characters; after each step the
+    object's special characters are read back, after each evaluation the list must be the scanner's result for the current
+    source, separator and special characters alone."""
     cfg = "TokObj_quick.cfg" if ctx.tier == "quick" else "TokObj_thorough.cfg"
     cs = x_c12.CaseStream(ctx, exe, [], hist_key, "tok_histories", whole_script=True)
-    st = {"n": 0, "steps": 0, "nonblank_then_blank": 0, "blank_then_nonblank": 0, "sep_changes": 0, "triples": 0}
+    st = {"n": 0, "steps": 0, "nonblank_then_blank": 0, "blank_then_nonblank": 0, "sep_changes": 0, "triples": 0,
+          "life": 0, "reuse_after_done": 0, "reuse_after_done_of_customised": 0, "custom_evals": 0, "keep_sep_evals": 0}
 
     def on_hist(r):
         if cs.env is None:
@@ -163,15 +181,35 @@ def histories(ctx, exe):
         h = r["h"]
         st["n"] += 1
         st["steps"] += len(h)
-        st["triples"] += len(h) >= 3
-        for a, b in zip(h, h[1:]):
+        ev = [e for e in h if e["op"] == "eval"]
+        st["triples"] += len(ev) >= 3
+        for a, b in zip(ev, ev[1:]):
             st["nonblank_then_blank"] += bool(a["toks"]) and not b["toks"]
             st["blank_then_nonblank"] += (not a["toks"]) and bool(b["toks"])
             st["sep_changes"] += a["d"] != b["d"]
-        if [tuple(e["s"]) for e in h] in ([(97, 32), (32,)], [(97, 58), (58, 58)]) and len({tuple(e["d"]) for e in h}) == 1:
+        ops = [e["op"] for e in h]
+        if len(ev) != len(h):
+            st["life"] += 1
+        if "done" in ops and ops[-1] == "eval":
+            st["reuse_after_done"] += 1
+            st["reuse_after_done_of_customised"] += any(e["ch"] != STOCK for e in h[:ops.index("done")])
+        st["custom_evals"] += sum(1 for e in ev if e["ch"] != STOCK)
+        st["keep_sep_evals"] += sum(1 for e in ev if e["keep"])
+        if len(ev) == len(h) and [tuple(e["s"]) for e in h] in ([(97, 32), (32,)], [(97, 58), (58, 58)]) and len({tuple(e["d"]) for e in h}) == 1:
             ctx.sample({"one_tok_object": [{"sep": txt(e["d"]) if e["d"] else "(white space)", "src": txt(e["s"]),
                                             "tokens_after_eval": [txt(x) for x in e["toks"]]} for e in h]})
-        steps = [("tok_eval", [tok(e["d"]) if e["d"] else "-", tok(e["s"])], tok(e["toks"]), None) for e in h]
+        if ops == ["setesc", "eval", "done", "eval"] and h[1]["s"] == [97, 94, 32, 98] and h[3]["s"] == [97, 94, 32, 98] and not h[1]["d"] and not h[3]["d"]:
+            ctx.sample({"one_tok_object_life_cycle": [dict(op=e["op"], **({"char": chr(e["c"])} if e["c"] else {}),
+                                                           **({"src": txt(e["s"]), "tokens_after_eval": [txt(x) for x in e["toks"]]} if e["op"] == "eval" else {}),
+                                                           special_chars_after="".join(map(chr, e["ch"]))) for e in h]})
+        steps = []
+        for e in h:
+            if e["op"] == "eval":
+                steps.append(("tok_eval", ["~" if e["keep"] else (tok(e["d"]) if e["d"] else "-"), tok(e["s"])], tok(e["toks"]), None, tok(e["ch"])))
+            elif e["op"] == "done":
+                steps.append(("tok_done", [], "T", None, tok(e["ch"])))
+            else:
+                steps.append((STEP_OP[e["op"]], [str(e["c"])], "T", None, tok(e["ch"])))
         cs.add(x_c12.Case(st["n"], steps, {"h": h}))
     try:
         res = x_c12.tlc_cases(ctx, "MC_TokObj.tla", cfg, HIST_ACTIONS, on_hist)
@@ -179,11 +217,15 @@ def histories(ctx, exe):
         tot = cs.close()
     if res.ok and tot["scripts"] != res.edges:
         raise Broken("emitted %d histories but replayed %d scripts" % (res.edges, tot["scripts"]))
-    if res.ok and not (st["nonblank_then_blank"] and st["blank_then_nonblank"] and st["sep_changes"] and st["triples"]):
+    if res.ok and not all(st[k] for k in st):
         raise Broken("vacuity: history classes missing: %s" % st)
-    ctx.cov["tok_histories"] = {"histories": st["n"], "evaluations_on_shared_objects": st["steps"], "triples": st["triples"],
+    ctx.cov["tok_histories"] = {"histories": st["n"], "steps_on_shared_objects": st["steps"], "triples": st["triples"],
                                 "steps_tokens_then_blank_source": st["nonblank_then_blank"],
-                                "steps_blank_source_then_tokens": st["blank_then_nonblank"], "steps_with_separator_change": st["sep_changes"]}
+                                "steps_blank_source_then_tokens": st["blank_then_nonblank"], "steps_with_separator_change": st["sep_changes"],
+                                "life_cycle_histories": st["life"], "reuse_after_done": st["reuse_after_done"],
+                                "reuse_after_done_of_a_customised_object": st["reuse_after_done_of_customised"],
+                                "evaluations_with_custom_special_characters": st["custom_evals"],
+                                "evaluations_that_leave_the_separator_alone": st["keep_sep_evals"]}
     ctx.add("distinct_nontrivial", st["n"])
 
 
@@ -244,6 +286,17 @@ def gen_long(rnd, tier):
         for d in dsets:
             out.append(("byte-values", d, s))
         out.append(("byte-values", [58], [min(lo + 50, 255)] + s[:-1]))
+    # (5) every byte value 1..255 (but the quotes and the backslash, which the property keeps out of delimiter sets) as the ONLY
+    #     delimiter and as one of several: between words, doubled, escaped, inside quotes, first and last
+    for b in range(1, 256):
+        if b in (SQ, DQ, BS):
+            continue
+        x, y = (97, 98) if b not in (97, 98) else (99, 100)
+        body = [x, b, y, b, b, x, BS, b, y, b, DQ, x, b, y, DQ, b, x, SQ, b, SQ]
+        out.append(("delimiter-byte-values", [b], body if b % 2 else [b] + body + [b]))
+        out.append(("delimiter-byte-values", [58, b] if b != 58 else [b, 44], body + [58, y]))
+        if b % 4 == 0:
+            out.append(("delimiter-byte-values", [b, 58, 32] if b not in (58, 32) else [b, 44, 59], [32] + body + [58, y, 32]))
     return out
 
 
@@ -288,7 +341,11 @@ def count_sweep(ctx, exe):
         x_c12.run_cases(ctx, exe, [], big, ckey, "count_sweep", env=dict(env, VH_LEVELS="0"), recorder=rec)
         lv = [0]
     else:
-        x_c12.run_cases(ctx, exe, [], cases, ckey, "count_sweep", env=env, recorder=rec)
+        # thorough: the exact 2^16 cases at every level, the other long ones at the first two levels (seconds per call and level)
+        exact = [c for c in cases if c.meta["tokens"] == 65536 or c.meta["tokens"] < 60000]
+        rest = [c for c in cases if c not in exact]
+        x_c12.run_cases(ctx, exe, [], exact, ckey, "count_sweep", env=env, recorder=rec)
+        x_c12.run_cases(ctx, exe, [], rest, ckey, "count_sweep_rest", env=dict(env, VH_LEVELS=",".join(map(str, lv[:2]))), recorder=rec)
     events, index = [], []
     for c in cases:
         if c.sid not in got:
